@@ -54,6 +54,7 @@ type limOp struct {
 	max        int
 	bypass     bool
 	panics     bool // the handler panics (a recover middleware in front answers 500)
+	viaErr     bool // the handler sets the failure status and returns an error
 	call, ret  uint64
 	hEntry     uint64
 	hExit      uint64
@@ -345,6 +346,11 @@ func limiterMain(s *simrt.Sim, info *harness.RunInfo) {
 		if op.panics {
 			panic("handler panic in op" + strconv.Itoa(op.id))
 		}
+		if op.viaErr {
+			// the failure is reported the other way: status set, error returned, the error handler writes the body
+			c.Status(op.wantStatus)
+			return fiber.NewError(op.wantStatus, "handler failed")
+		}
 		return c.SendStatus(op.wantStatus)
 	})
 	app.Handler() // startup work happens before the clients start
@@ -374,6 +380,7 @@ func limiterMain(s *simrt.Sim, info *harness.RunInfo) {
 			}
 			if s.Chance(250) {
 				op.wantStatus = simrt.PickS(s, 500, 404, 400)
+				op.viaErr = s.Chance(400)
 			}
 			if usePanic && s.Chance(150) {
 				op.panics, op.wantStatus = true, 500
